@@ -69,6 +69,14 @@ def _json_container(rng: random.Random) -> Any:
     return v if isinstance(v, (dict, list)) else {"v": v}
 
 
+import pickle as _pickle
+
+
+class _PyUnpickler(_pickle._Unpickler):  # type: ignore[name-defined,misc]
+    """The pure-Python unpickler: mutated pickles are fed to these serializers (C05, C06); the C implementation answers some one-byte
+    corruptions by allocating gigabytes (see DESIGN.md R.4)."""
+
+
 def entries() -> list[Entry]:
     from easynetwork.converter import AbstractPacketConverter
     from easynetwork.exceptions import DeserializeError, PacketConversionError
@@ -194,17 +202,17 @@ def entries() -> list[Entry]:
         Entry("AutoSeparatedPacketSerializer(subclass,'|;|')", Upper, lambda rng: _text(rng, 1, 10, string.ascii_letters + "|;é"), buffered=True),
         Entry("FileBasedPacketSerializer(subclass)", LengthPrefixed, gen_bytes(0, 20), buffered=True),
         Entry("Base64(JSON)", lambda: Base64EncoderSerializer(JSONSerializer()), _json_value, buffered=True),
-        Entry("Base64(pickle,checksum,standard)", lambda: Base64EncoderSerializer(PickleSerializer(), alphabet="standard", checksum=True), _json_value, buffered=True),
+        Entry("Base64(pickle,checksum,standard)", lambda: Base64EncoderSerializer(PickleSerializer(unpickler_cls=_PyUnpickler), alphabet="standard", checksum=True), _json_value, buffered=True),
         Entry("Base64(JSON,checksum=key)", lambda: Base64EncoderSerializer(JSONSerializer(), checksum=__import__("base64").urlsafe_b64encode(b"k" * 32)), _json_value, buffered=True),
         Entry("Zlib(JSON)", lambda: ZlibCompressorSerializer(JSONSerializer()), _json_value, buffered=True),
-        Entry("Zlib(pickle,level1)", lambda: ZlibCompressorSerializer(PickleSerializer(), compress_level=1), _json_value, buffered=True),
+        Entry("Zlib(pickle,level1)", lambda: ZlibCompressorSerializer(PickleSerializer(unpickler_cls=_PyUnpickler), compress_level=1), _json_value, buffered=True),
         Entry("BZ2(JSON)", lambda: BZ2CompressorSerializer(JSONSerializer()), _json_value, buffered=True),
         Entry("BZ2(line,level1)", lambda: BZ2CompressorSerializer(StringLineSerializer(), compress_level=1), gen_line, buffered=True),
         Entry("StapledIncremental(JSON raw / JSON raw)", lambda: StapledIncrementalPacketSerializer(JSONSerializer(use_lines=False), JSONSerializer(use_lines=False)), _json_container),
         Entry("StapledBuffered(line / line)", lambda: StapledBufferedIncrementalPacketSerializer(StringLineSerializer(), StringLineSerializer()), gen_line, buffered=True),
         Entry("StreamProtocol(JSON lines)+converter", lambda: JSONSerializer(), gen_point, converter=PointConverter),
         Entry("BufferedStreamProtocol(line)+converter", lambda: StringLineSerializer(), lambda rng: rng.randint(-(10**6), 10**6), buffered=True, converter=IntLineConverter),
-        Entry("PickleSerializer", lambda: PickleSerializer(), _json_value, incremental=False),
+        Entry("PickleSerializer", lambda: PickleSerializer(unpickler_cls=_PyUnpickler), _json_value, incremental=False),
     ]
     try:  # optional dependencies: absent in the offline sandbox
         from easynetwork.serializers.cbor import CBORSerializer
